@@ -14,6 +14,13 @@ Case lines
   8 src                    open a switch_ node keyed by node `src` of the same graph; 9 opens its next branch
                            (branch b has key b; its nodes are addressed <switch path> ++ [100*(b+1)+index]); 4 closes it.
                            Cases with a switch_ are judged by the oracle only (no Coq model of switch_).
+  12 variant               a map_ / reduce_ scenario (cxx/lifecycle_dyn.cpp; oracle only): root = replay source -> map_;
+                           (4 = reduce_(TSD, zero) with a static-node combiner: one child graph per tree position)
+                           1 map_sink_(TSD) child{solo}, 2 map_sink_(TSD) child{head -> tail}, 3 map_(dynamic TSL) child{head}
+  13 c k v / 14 c k        in replay cycle c set key (TSL: index) k to v / remove key k
+                           faults of map_ children: path = [1, 500+pos], k = the k-th invocation of that hook over ALL
+                           children; hook lines carry a last field inst (ordinal of the instance's start call)
+  15 kind n                the lifecycle OBSERVER throws in its n-th notification of that kind (oracle only)
   6 k len path...          node `path` calls request_stop in its k-th evaluation
 Observation lines
   kind t len path...       observer notification  1 BSG 2 ASG 3 SGF (start graph before/after/failed)
@@ -32,7 +39,7 @@ The model is fed case ++ [-1] ++ implementation output and appends
 import itertools
 
 NAME = "lifecycle"
-DRIVER_SRCS = ["lifecycle_driver.cpp"]
+DRIVER_SRCS = ["lifecycle_driver.cpp", "lifecycle_dyn.cpp"]
 MODEL_FAMILY = "lifecycle"
 PIPE = True
 BUDGET = {"quick": 1500, "thorough": 6000}
@@ -100,6 +107,18 @@ def has_switch(case):
     return any(l and l[0] == 8 for l in case)
 
 
+def is_map_case(case):
+    return any(l and l[0] == 12 for l in case)
+
+
+def has_observer_fault(case):
+    return any(l and l[0] == 15 for l in case)
+
+
+def oracle_only(case):
+    return has_switch(case) or is_map_case(case) or has_observer_fault(case)
+
+
 def gen_tree(rng, depth, max_nodes):
     n = rng.randint(1, max_nodes)
     tree = []
@@ -141,9 +160,74 @@ def gen_switch(rng, tier):
     return make_case(tree, start, end, rng.choice([0, 1, 1]), faults, [])
 
 
+def gen_map(rng, tier):
+    """map_ children created mid-run: several keys per cycle, start faults in the k-th child of a cycle,
+    evaluate and stop faults, removals; sampled at the return of run() and at the release."""
+    variant = rng.choice([1, 2, 2, 3, 4, 4])     # 4: reduce_ with a sub-graph combiner
+    start = rng.randint(1, 2)
+    ncycles = rng.randint(1, 4)
+    end = start + ncycles + rng.randint(1, 3)
+    case = [[1, start, end, rng.choice([0, 1, 1, 1])], [12, variant]]
+    live = set()
+    nstarts = 0
+    for cy in range(ncycles):
+        if variant == 3:
+            grow = rng.randint(1 if cy == 0 else 0, 3)
+            for k in range(len(live), len(live) + grow):
+                case.append([13, cy, k, rng.randint(0, 9)])
+                live.add(k)
+                nstarts += 1
+            for k in list(live)[:1]:
+                if rng.random() < 0.3:
+                    case.append([13, cy, k, rng.randint(0, 9)])
+        else:
+            # reduce_ needs >= 3 live keys for two combiner graphs: start wide, remove rarely
+            lo = (3 if variant == 4 else 2) if cy == 0 and rng.random() < 0.8 else 0
+            for k in rng.sample(range(1, 7), rng.randint(lo, 5 if variant == 4 and cy == 0 else 3)):
+                if k in live and rng.random() < (0.25 if variant == 4 else 0.5):
+                    case.append([14, cy, k])
+                    live.discard(k)
+                else:
+                    if k not in live:
+                        nstarts += 1
+                    case.append([13, cy, k, rng.randint(0, 9)])
+                    live.add(k)
+    npos = 2 if variant == 2 else 1
+    shape = rng.random()
+    faults = []
+    if shape < 0.45:      # a start fault in the k-th child started (k >= 1 mostly: not the first one of the cycle)
+        faults.append((0, rng.choice([0, 1, 1, 2, 2, 3]), (1, 500 + rng.randrange(npos))))
+        if rng.random() < 0.3:
+            faults.append((2, rng.choice([0, 1]), (1, 500 + rng.randrange(npos))))
+    elif shape < 0.65:
+        faults.append((2, rng.choice([0, 0, 1, 2]), (1, 500 + rng.randrange(npos))))
+    elif shape < 0.85:
+        faults.append((1, rng.choice([0, 1, 2, 3]), (1, 500 + rng.randrange(npos))))
+        if rng.random() < 0.5:
+            faults.append((2, rng.choice([0, 1]), (1, 500 + rng.randrange(npos))))
+    for (ph, k, p) in faults:
+        fl = rng.choice([0, 0, 0, 1, 2])
+        case.append([5, ph, k, len(p)] + list(p) + ([fl] if fl else []))
+    return case
+
+
+def gen_observer(rng, tier):
+    """a lifecycle observer that throws from one of its notifications"""
+    tree = gen_tree(rng, rng.choice([0, 0, 1]), 3)
+    start = rng.randint(1, 2)
+    case = make_case(tree, start, start + rng.randint(1, 4), rng.choice([0, 1]), [], [])
+    case.append([15, 11, rng.choice([0, 0, 1, 2])])     # before stop node
+    return case
+
+
 def gen(rng, tier, prop):
-    if rng.random() < 0.12:
+    r0 = rng.random()
+    if r0 < 0.12:
         return gen_switch(rng, tier)
+    if r0 < 0.24:
+        return gen_map(rng, tier)
+    if r0 < 0.26:
+        return gen_observer(rng, tier)
     r = rng.random()
     depth = rng.choice([0, 0, 1, 1, 2, 3])
     tree = gen_tree(rng, depth, 4 if tier == "quick" else 5)
@@ -249,6 +333,22 @@ def enumerate_cases(prop):
                     out.append(make_case(tree, start, end, cleanup, [(ph, 0, p, 1)], []))
                 for q in pp:
                     out.append(make_case(tree, start, end, cleanup, [(1, 0, p, 2), (2, 0, q, 1)], []))
+    # map_: keys arriving together in the first cycle / in a later cycle; every start, evaluate and stop
+    # fault point of the first four hook invocations; both clean-up settings
+    for variant in (1, 2, 3, 4):
+        npos = 2 if variant == 2 else 1
+        scripts = ([[13, 0, 1, 1], [13, 0, 2, 2]], [[13, 0, 1, 1], [13, 0, 2, 2], [13, 0, 3, 3]],
+                   [[13, 0, 1, 1], [13, 1, 2, 2], [13, 1, 3, 3]], [[13, 0, 1, 1], [13, 0, 2, 2], [14, 1, 1], [13, 2, 4, 4]])
+        if variant == 3:
+            scripts = ([[13, 0, 0, 1], [13, 0, 1, 2]], [[13, 0, 0, 1], [13, 0, 1, 2], [13, 0, 2, 3]], [[13, 0, 0, 1], [13, 1, 1, 2], [13, 1, 2, 3]])
+        for sc in scripts:
+            for cleanup in (0, 1):
+                base = [[1, 1, 7, cleanup], [12, variant]] + [list(x) for x in sc]
+                out.append(base)
+                for pos in range(npos):
+                    for ph in (0, 1, 2):
+                        for k in range(4):
+                            out.append(base + [[5, ph, k, 2, 1, 500 + pos]])
     # switch_: two/three branches, every key change pattern of length <= 3, every single fault point
     for branches in ([[_p()], [_p()]], [[_p(), _p()], [_p(), _p()]], [[_p()], [_p(), _p()], [_p()]]):
         nb = len(branches)
@@ -349,8 +449,17 @@ def oracle(prop, case, out):
         return [("crash", str(out)[:300])]
     if any(l and l[0] == 48 for l in out):
         return [("build_error", "the driver could not build the graph")]
-    if has_switch(case):
-        return oracle_switch(case, out)
+    if is_map_case(case):
+        return oracle_map(case, out)
+    if has_switch(case) or has_observer_fault(case):
+        fl = oracle_switch(case, out)
+        if has_observer_fault(case) and any(l and l[0] == 25 for l in out):
+            # known weakness: an observer that throws from "before stop node" makes the engine skip the node's stop
+            leak = [d for k, d in fl if k in ("not_stopped", "left_started", "late_stop")]
+            fl = [(k, d) for k, d in fl if k not in ("not_stopped", "left_started", "late_stop", "wrong_error")]
+            if leak:
+                fl.append(("observer_throw_skips_stop", leak[0]))
+        return fl
     c = parse_case(case)
     ev_run, result, flags, ev_rel, counters = parse_out(out)
     fails = []
@@ -522,6 +631,79 @@ def first_fired_in_cycle(log, fe):
     return False
 
 
+def oracle_map(case, out):
+    """map_ scenarios (no Coq model): the property on the user hooks of the map_ children, matched per instance
+    (inst = ordinal of its start call): a completed start is followed by exactly one stop, evaluations in
+    between, the tail of a child stops before its head, every instance is stopped by the return of run (or by
+    the release when clean-up is off and an error escaped an evaluation), the first fault that fired is reported."""
+    c = parse_case(case)
+    variant = next((l[1] for l in case if l[0] == 12 and len(l) > 1), 2)
+    fspec = {}
+    for i, (ph, k, p) in reversed(list(enumerate(c["faults"]))):
+        if len(p) == 2 and p[0] == 1 and p[1] in (500, 501):
+            fspec[(ph, k, p[1] - 500)] = i
+    fails = []
+    result = None
+    stage = 0
+    in_cycle = False
+    hooks = []           # (phase, pos, n, inst, stage, in_cycle)
+    for l in out:
+        if l[0] in (20, 21, 22) and len(l) >= 7:
+            hooks.append((l[0] - 20, l[4] - 500, l[5], l[6], stage, in_cycle))
+        elif l[0] == 7:
+            in_cycle = True
+        elif l[0] == 8:
+            in_cycle = False
+        elif l[0] in (40, 41):
+            result = l
+        elif l[0] == 42:
+            stage = 1
+    if result is None:
+        return [("trace_shape", "no result line")]
+    fired = [(fspec[(h[0], h[2], h[1])], h) for h in hooks if (h[0], h[2], h[1]) in fspec]
+    eval_in_flight = bool(fired) and fired[0][1][5]
+    must_be_done_at_return = bool(c["cleanup"]) or not eval_in_flight
+    stop_fault_in_run = any(h[0] == 2 and h[4] == 0 for _, h in fired)
+    started, stopped_at = {}, {}
+    for idx, h in enumerate(hooks):
+        ph, pos, n, inst, stg, _ = h
+        if ph == 0:
+            if inst in started:
+                fails.append(("started_twice", "instance %d started twice" % inst))
+            if (0, n, pos) not in fspec:
+                started[inst] = pos
+        elif ph == 1:
+            if inst not in started or inst in stopped_at:
+                fails.append(("eval_outside_lifetime", "instance %d (pos %d) evaluated outside start..stop" % (inst, pos)))
+        else:
+            if inst not in started or inst in stopped_at:
+                fails.append(("stopped_twice", "stop hook of instance %d ran while it was not started" % inst))
+            stopped_at[inst] = (idx, stg)
+            if variant == 2 and pos == 0 and started.get(inst + 1) == 1 and inst + 1 not in stopped_at:
+                fails.append(("stop_order", "head instance %d stopped before its tail %d" % (inst, inst + 1)))
+    for inst in sorted(started):
+        if inst not in stopped_at:
+            fails.append(("not_stopped", "map_ child instance %d: start completed, never stopped" % inst))
+        elif stopped_at[inst][1] == 1 and must_be_done_at_return:
+            kind = "map_stop_abort" if (stop_fault_in_run and variant != 3) else "late_stop"
+            fails.append((kind, "map_ child instance %d was still started at the return of run(); stopped only at the release" % inst))
+    if c["end"] > c["start"]:
+        if fired:
+            fid, h = fired[0]
+            want_phase = 1 if h[5] else h[0]
+            if result[0] != 40 or result[3] != fid or result[2] != want_phase or result[1] < 0:
+                swallowed = variant == 3 and h[0] == 2 and not h[5] and result == [41]
+                # reduce_: a combiner retired while the tree shrinks/rebalances inside an evaluation is stopped through
+                # stop_combiner_noexcept: its stop fault is swallowed and the run goes on
+                shrink = variant == 4 and h[0] == 2 and h[5] and (result == [41] or (result[0] == 40 and result[3] != fid))
+                fails.append(("tsl_map_stop_fault_swallowed" if swallowed else
+                              "reduce_retired_combiner_stop_fault_swallowed" if shrink else "wrong_error",
+                              "first fault %d fired in phase %d (in a cycle: %s); run reported %s" % (fid, h[0], h[5], result)))
+        elif result[0] == 40:
+            fails.append(("wrong_error", "run threw %s but no fault fired" % (result,)))
+    return fails
+
+
 def oracle_switch(case, out):
     """Cases with a switch_ node: no Coq model; the property on the user hooks alone (each node below a
     switch_ has its own static address): a completed start is followed by exactly one stop, evaluations
@@ -598,13 +780,17 @@ def oracle_switch(case, out):
 PROP_KINDS = {
     "C14": {"start_order", "stop_order", "rollback_wrong", "leak_rollback_abort", "stop_blocked", "stopped_twice", "started_twice",
             "not_stopped", "late_stop", "counter_mismatch", "left_started", "eval_outside_lifetime", "wrong_error",
-            "unbalanced", "trace_shape", "build_error", "terminate_on_foreign_exception"},
+            "unbalanced", "trace_shape", "build_error", "terminate_on_foreign_exception",
+            "map_stop_abort", "tsl_map_stop_fault_swallowed", "reduce_retired_combiner_stop_fault_swallowed"},
+    # "observer_throw_skips_stop" is deliberately NOT listed: an exception thrown by a LifecycleObserver callback is
+    # outside C14's quantifier (exceptions thrown from a node's start/evaluate/stop); the kind is computed, reported nowhere
+
 }
 
 
 def agree(case, io, mo):
-    if has_switch(case):
-        return isinstance(io, list)      # no model of switch_: the oracle alone judges these cases
+    if oracle_only(case):
+        return isinstance(io, list)      # no model of switch_ / map_ / throwing observers: the oracle alone judges these cases
     if not isinstance(io, list) or not isinstance(mo, list) or not mo:
         return False
     v = mo[-1]
@@ -626,6 +812,8 @@ def nontrivial(case, out):
             n = l[2]
             if (hook_phase[l[0]], l[3 + n], tuple(l[3:3 + n])) in fs:
                 return True
+        if l and l[0] == 25:
+            return True
     return False
 
 
@@ -634,7 +822,8 @@ def stats(case, out):
     st = {"nodes": len(all_paths(c["tree"])), "plain": len(plain_paths(c["tree"])),
           "nested": len(all_paths(c["tree"])) - len(plain_paths(c["tree"])),
           "faults_planned": len(c["faults"]), "cleanup_off": int(not c["cleanup"]), "stop_requests": len(c["stops"]),
-          "switch_cases": int(has_switch(case)), "foreign_exception_faults": sum(1 for f in c["flavours"] if f)}
+          "switch_cases": int(has_switch(case)), "map_cases": int(is_map_case(case)), "observer_fault_cases": int(has_observer_fault(case)),
+          "foreign_exception_faults": sum(1 for f in c["flavours"] if f)}
     if not isinstance(out, list):
         st["crash"] = 1
         return st
